@@ -301,9 +301,10 @@ MincOK(fr, sel) ==
     /\ tg # <<>>
     /\ \A i, j \in DOMAIN tg : tg[i] = tg[j] => i = j
     /\ \A i \in DOMAIN tg : tg[i] \in LiveNames
+    /\ \A i \in DOMAIN tg : tg[i] \in Base \cup {"s", "t"}     \* domain: MINC is applied to porous-medium blocks, not to MINC blocks
     /\ \A i \in DOMAIN tg : \A m \in 1..(Len(fr) - 1) : MincName(tg[i], m) \notin LiveNames
 
-Minc(fr, sel) ==
+Minc(fr, sel, sc) ==          \* sc: how the caller scaled the fractions ("unit", "sub", "pct") - they are relative weights
     /\ MincOK(fr, sel)
     /\ LET st == MincFold([blocks |-> blocks, blockDict |-> blockDict, conns |-> conns, connDict |-> connDict,
                            connNames |-> connNames, rocks |-> rocks, rockDict |-> rockDict],
@@ -311,7 +312,54 @@ Minc(fr, sel) ==
        /\ blocks' = st.blocks /\ blockDict' = st.blockDict /\ conns' = st.conns
        /\ connDict' = st.connDict /\ connNames' = st.connNames
        /\ rocks' = st.rocks /\ rockDict' = st.rockDict
-    /\ last' = [op |-> "minc", fr |-> fr, sel |-> sel]
+    /\ last' = [op |-> "minc", fr |-> fr, sel |-> sel, sc |-> sc]
+
+(* embed(subgrid, connection): the result is a NEW grid holding the host's and the
+   sub-grid's objects plus one link connection; the sub-grid's volume is carved
+   out of the host block.  The sub-grid here is a chain of n blocks named by
+   SubNames, of volume SubVol each, with one rock type r (which REPLACES a
+   registered rock type of the same name, as add_rocktype does).             *)
+SubNames == <<"s", "t">>
+SubVol == 100
+RECURSIVE AllocIds(_, _)
+AllocIds(used, k) == IF k = 0 THEN <<>> ELSE LET x == NewBlockId(used) IN <<x>> \o AllocIds(used \cup {x}, k - 1)
+
+Embed(h, n, r, k) ==
+    /\ h \in LiveNames /\ n \in 1..Len(SubNames)
+    /\ \A j \in 1..n : SubNames[j] \notin LiveNames
+    /\ n * SubVol < BlockById(blockDict[h]).vol
+    /\ r \in DOMAIN rockDict => r \notin UsedRocks      \* domain: a rock type in use is not replaced (as for AddRocktype)
+    /\ LET hid == blockDict[h]
+           bids == AllocIds(LiveBlockIds, n)
+           cids == AllocIds(ConnIds, n)              \* n-1 chain connections, then the link
+           rid == NewBlockId(RockIds)
+           subBlocks == [j \in 1..n |-> [id |-> bids[j], name |-> SubNames[j], rock |-> r, vol |-> SubVol, ctr |-> bids[j]]]
+           chain == [j \in 1..(n - 1) |-> [id |-> cids[j], b1 |-> bids[j], b2 |-> bids[j + 1],
+                                           d1 |-> 2 * cids[j] - 1, d2 |-> 2 * cids[j], area |-> cids[j],
+                                           dir |-> KindDir("h"), cos |-> KindCos("h")]]
+           link == [id |-> cids[n], b1 |-> hid, b2 |-> bids[1], d1 |-> 2 * cids[n] - 1, d2 |-> 2 * cids[n],
+                    area |-> cids[n], dir |-> KindDir(k), cos |-> KindCos(k)]
+           chainKey(j) == <<SubNames[j], SubNames[j + 1]>>
+           linkKey == <<h, SubNames[1]>>
+           newKeys == {chainKey(j) : j \in 1..(n - 1)} \cup {linkKey}
+           keysOf(id) == {chainKey(j) : j \in {x \in 1..(n - 1) : bids[x] = id \/ bids[x + 1] = id}}
+                         \cup (IF id = hid \/ id = bids[1] THEN {linkKey} ELSE {})
+       IN
+       /\ blocks' = [i \in DOMAIN blocks |-> IF blocks[i].id = hid THEN [blocks[i] EXCEPT !.vol = @ - n * SubVol] ELSE blocks[i]]
+                    \o subBlocks
+       /\ blockDict' = [x \in DOMAIN blockDict \cup {SubNames[j] : j \in 1..n} |->
+                          IF x \in DOMAIN blockDict THEN blockDict[x] ELSE bids[CHOOSE j \in 1..n : SubNames[j] = x]]
+       /\ conns' = conns \o chain \o <<link>>
+       /\ connDict' = [x \in DOMAIN connDict \cup newKeys |->
+                          IF x \in DOMAIN connDict THEN connDict[x]
+                          ELSE IF x = linkKey THEN cids[n] ELSE cids[CHOOSE j \in 1..(n - 1) : chainKey(j) = x]]
+       /\ connNames' = [x \in DOMAIN connNames \cup Range(bids) |->
+                          (IF x \in DOMAIN connNames THEN connNames[x] ELSE {}) \cup keysOf(x)]
+       /\ rocks' = IF r \in DOMAIN rockDict
+                   THEN [rocks EXCEPT ![IndexOfId(rocks, rockDict[r])] = [id |-> rid, name |-> r]]
+                   ELSE Append(rocks, [id |-> rid, name |-> r])
+       /\ rockDict' = (r :> rid) @@ rockDict
+    /\ last' = [op |-> "embed", h |-> h, n |-> n, r |-> r, k |-> k]
 
 -----------------------------------------------------------------------------
 (* the action-level clauses of C08 / C09 *)
@@ -332,6 +380,11 @@ C08_RenameKeeps ==
 
 (* C09: reorder / rename / demote leave the physics unchanged *)
 C09_PhysUnchanged == (RenameStep \/ ReorderStep \/ DemoteStep) => PhysSig' = PhysSig
+
+(* C09: embedding a sub-grid conserves total volume *)
+RECURSIVE SumVol(_, _)
+SumVol(bl, n) == IF n = 0 THEN 0 ELSE SumVol(bl, n - 1) + bl[n].vol
+C09_Embed == last'.op = "embed" => SumVol(blocks', Len(blocks')) = SumVol(blocks, Len(blocks))
 
 (* C09: MINC conserves each original block's volume and chains the continua *)
 C09_Minc ==
@@ -375,14 +428,16 @@ Next ==
     \/ \E i \in 1..(Len(blocks) - 1) : Reorder(AdjSwap(Len(blocks), i), <<>>, {})
     \/ \E i \in 1..(Len(conns) - 1) : Reorder(<<>>, AdjSwap(Len(conns), i), {})
     \/ \E c \in SeqIds(conns) : Reorder(<<>>, Ident(Len(conns)), {c})
-    \/ \E fr \in Fracs : Minc(fr, <<>>)
-    \/ \E fr \in Fracs, n \in Base : Minc(fr, <<n>>)
+    \/ \E fr \in Fracs : Minc(fr, <<>>, "unit")
+    \/ \E fr \in Fracs, n \in Base : Minc(fr, <<n>>, "unit")
+    \/ \E h \in Base, n \in 1..2, r \in RockBase, k \in Kinds : Embed(h, n, r, k)
 
 Spec == Init /\ [][Next]_allvars
 
 Prop_C08_RenameKeeps == [][C08_RenameKeeps]_allvars
 Prop_C09_PhysUnchanged == [][C09_PhysUnchanged]_allvars
 Prop_C09_Minc == [][C09_Minc]_allvars
+Prop_C09_Embed == [][C09_Embed]_allvars
 
 Bound == Len(blocks) <= MaxBlocks
 View == vars
